@@ -3,6 +3,7 @@
 -/
 import BitstringModel.Model.C14
 import BitstringModel.Proofs.C14
+import Mathlib.Tactic.IntervalCases
 
 namespace BM.C14
 open BM
@@ -214,5 +215,211 @@ theorem setItem_blocks (c : Codec V) (hu : c.mult = 1) (hL : 0 < c.L) (hwf : c.W
   rw [(view_of_blocks c hu hL bs t hbs ht).2.2.2, hn]
   simp only [hce]
   rw [overwrite_block c.L hL bs t b hbs hbl k hk]
+
+theorem map_eraseIdx' {α β} (f : α → β) (l : List α) (k : Nat) : (l.eraseIdx k).map f = (l.map f).eraseIdx k := by
+  rw [List.eraseIdx_eq_take_drop_succ, List.eraseIdx_eq_take_drop_succ]
+  simp [List.map_take, List.map_drop]
+
+theorem delete_block (L : Nat) (bs : List Bits) (t : Bits) (hbs : ∀ b ∈ bs, b.length = L) (k : Nat) (hk : k < bs.length) :
+    bdelSlice (bs.flatten ++ t) ((L * k : Nat) : Int) (((L * k : Nat) : Int) + (L : Int)) = (bs.eraseIdx k).flatten ++ t := by
+  have hlen : (bs.flatten ++ t).length = bs.length * L + t.length := by
+    rw [List.length_append, blocks_flatten_length L bs hbs]
+  have hk' : (k + 1) * L ≤ bs.length * L := Nat.mul_le_mul_right _ hk
+  have e1 : (k + 1) * L = L * k + L := by ring
+  have e : ((L * k : Nat) : Int) + (L : Int) = ((L * k + L : Nat) : Int) := by push_cast; rfl
+  rw [e, bdelSlice_nat _ _ _ (by omega) (by omega) (by omega)]
+  rw [Nat.mul_comm L k, erase_block L bs t hbs k hk]
+
+theorem erase_blocks_length (L : Nat) (bs : List Bits) (hbs : ∀ b ∈ bs, b.length = L) (k : Nat) :
+    ∀ b ∈ bs.eraseIdx k, b.length = L :=
+  fun b hb => hbs b (List.mem_of_mem_eraseIdx hb)
+
+theorem delItem_blocks (c : Codec V) (hu : c.mult = 1) (hL : 0 < c.L) (bs : List Bits) (t : Bits)
+    (hbs : ∀ b ∈ bs, b.length = c.L) (ht : t.length < c.L) (i : Int) (k : Nat) (hn : normIndex bs.length i = .ok k) :
+    delItem c (bs.flatten ++ t) i = ⟨(bs.eraseIdx k).flatten ++ t, .ok ()⟩ := by
+  obtain ⟨hk, _⟩ := normIndex_ok _ _ _ hn
+  unfold delItem
+  rw [(view_of_blocks c hu hL bs t hbs ht).2.2.2, hn]
+  simp only
+  rw [delete_block c.L bs t hbs k hk]
+
+theorem trailing_length (w : Nat) (d : Bits) : (trailing w d).length = d.length % w := by
+  unfold trailing
+  simp only [List.length_drop]
+  have := Nat.div_add_mod d.length w
+  omega
+
+theorem trailing_nil_iff (w : Nat) (d : Bits) : trailing w d = [] ↔ d.length % w = 0 := by
+  rw [← trailing_length w d]
+  exact List.length_eq_zero_iff.symm
+
+/-- The encodings of a list of values that all fit. -/
+theorem encs_of_fits (c : Codec V) (hu : c.mult = 1) (hwf : c.WF) (vals : List V) (hall : vals.all (fits c) = true) :
+    ∃ bl : List Bits, List.Forall₂ (fun v b => c.enc v = .ok b) vals bl ∧ (∀ b ∈ bl, b.length = c.L) ∧
+      bl.map c.dec = vals ∧ vals.mapM c.enc = .ok bl ∧ createAll c vals = .ok bl.flatten := by
+  induction vals with
+  | nil => exact ⟨[], List.Forall₂.nil, by simp, rfl, rfl, rfl⟩
+  | cons v vs ih =>
+    simp only [List.all_cons, Bool.and_eq_true] at hall
+    obtain ⟨bl, h1, h2, h3, h4, h5⟩ := ih hall.2
+    obtain ⟨b, hb⟩ := (fits_iff c v).mp hall.1
+    obtain ⟨hce, hbl, hdec⟩ := createElement_ok c hu hwf v b hb
+    refine ⟨b :: bl, List.Forall₂.cons hb h1, ?_, ?_, ?_, ?_⟩
+    · intro x hx
+      rcases List.mem_cons.mp hx with rfl | hx
+      · exact hbl
+      · exact h2 x hx
+    · simp [hdec, h3]
+    · simp only [List.mapM_cons, hb, h4]; rfl
+    · simp [createAll, hce, h5]
+
+theorem extendLoop_blocks (c : Codec V) (hu : c.mult = 1) (hwf : c.WF) (vals : List V) (bl : List Bits)
+    (h : List.Forall₂ (fun v b => c.enc v = .ok b) vals bl) (d : Bits) :
+    extendLoop c vals d = ⟨d ++ bl.flatten, .ok ()⟩ := by
+  induction h generalizing d with
+  | nil => simp [extendLoop]
+  | @cons v b vs bs hb _ ih =>
+    obtain ⟨hce, _, _⟩ := createElement_ok c hu hwf v b hb
+    simp only [extendLoop, hce, ih, List.flatten_cons, List.append_assoc]
+
+theorem append_blocks_length (L : Nat) (bs bl : List Bits) (hbs : ∀ b ∈ bs, b.length = L) (hbl : ∀ b ∈ bl, b.length = L) :
+    ∀ b ∈ bs ++ bl, b.length = L := by
+  intro b hb
+  rcases List.mem_append.mp hb with h | h
+  · exact hbs b h
+  · exact hbl b h
+
+theorem bInsert_of (d nb : Bits) (pos : Int) (p : Nat) (hnb : nb.length ≠ 0) (hp : p ≤ d.length)
+    (h : (if pos < 0 then pos + (d.length : Int) else pos) = (p : Int)) :
+    bInsert d nb pos = .ok (d.take p ++ nb ++ d.drop p) := by
+  unfold bInsert
+  simp only [hnb, if_false]
+  rw [h]
+  have h3 : ¬ ((p : Int) < 0 ∨ (p : Int) > d.length) := by omega
+  rw [if_neg h3, bsetSlice_nat d nb p p hp hp (Nat.le_refl _)]
+
+theorem insert_blocks_length (L : Nat) (bs : List Bits) (nb : Bits) (hbs : ∀ b ∈ bs, b.length = L) (hnb : nb.length = L)
+    (k : Nat) : ∀ b ∈ bs.take k ++ nb :: bs.drop k, b.length = L := by
+  intro b hb
+  rcases List.mem_append.mp hb with h | h
+  · exact hbs b (List.mem_of_mem_take h)
+  · rcases List.mem_cons.mp h with rfl | h
+    · exact hnb
+    · exact hbs b (List.mem_of_mem_drop h)
+
+/-- `dec` is injective on item patterns of a canonical codec. -/
+theorem map_dec_inj (c : Codec V) (hcanon : c.Canonical) (l1 l2 : List Bits) (h1 : ∀ b ∈ l1, b.length = c.w)
+    (h2 : ∀ b ∈ l2, b.length = c.w) (h : l1.map c.dec = l2.map c.dec) : l1 = l2 := by
+  induction l1 generalizing l2 with
+  | nil =>
+    cases l2 with
+    | nil => rfl
+    | cons b l2 => simp at h
+  | cons a l1 ih =>
+    cases l2 with
+    | nil => simp at h
+    | cons b l2 =>
+      simp only [List.map_cons, List.cons.injEq] at h
+      have ha := hcanon a (h1 a (by simp))
+      have hb := hcanon b (h2 b (by simp))
+      rw [h.1, hb] at ha
+      injection ha with ha
+      rw [ha, ih l2 (fun x hx => h1 x (by simp [hx])) (fun x hx => h2 x (by simp [hx])) h.2]
+
+theorem mapM_enc_dec (c : Codec V) (hcanon : c.Canonical) (l : List Bits) (hl : ∀ b ∈ l, b.length = c.w) :
+    (l.map c.dec).mapM c.enc = .ok l := by
+  induction l with
+  | nil => rfl
+  | cons a l ih =>
+    have ha := hcanon a (hl a (by simp))
+    have := ih (fun x hx => hl x (by simp [hx]))
+    simp only [List.map_cons, List.mapM_cons, ha, this]
+    rfl
+
+/-- The extend loop either stores all encodings or raises (exactly when some value does not fit). -/
+theorem extendLoop_err (c : Codec V) (hu : c.mult = 1) (hwf : c.WF) (vals : List V) (d : Bits)
+    (h : vals.all (fits c) = false) : ∃ e, (extendLoop c vals d).res = .error e := by
+  induction vals generalizing d with
+  | nil => simp at h
+  | cons v vs ih =>
+    unfold extendLoop
+    cases hf : fits c v with
+    | false =>
+      obtain ⟨e, he⟩ := (fits_false_iff c v).mp hf
+      rw [createElement_err c v e he]
+      exact ⟨e, rfl⟩
+    | true =>
+      obtain ⟨b, hb⟩ := (fits_iff c v).mp hf
+      obtain ⟨hce, _, _⟩ := createElement_ok c hu hwf v b hb
+      rw [hce]
+      simp only [List.all_cons, hf, Bool.true_and] at h
+      exact ih (d ++ b) h
+
+/-- The unsigned-integer codecs of the driver satisfy the codec hypotheses, for every width. -/
+theorem mkCodec_u_WF (name : String) (L : Nat) (rt : RT) (sg : Bool) : (mkCodec .u name L 1 rt sg).WF := by
+  constructor
+  · intro v b h
+    cases v with
+    | int i =>
+      simp only [mkCodec, encVal] at h
+      split at h
+      · injection h with h; subst h
+        simp [Codec.w, mkCodec, natToBits_length]
+      · cases h
+    | raw r => simp [mkCodec, encVal] at h
+    | bad => simp [mkCodec, encVal] at h
+  · intro v b h
+    cases v with
+    | int i =>
+      simp only [mkCodec, encVal] at h
+      split at h
+      · rename_i hr
+        injection h with h; subst h
+        simp only [mkCodec, decVal]
+        have hlt : i.toNat < 2 ^ (L * 1) := by
+          have h1 := hr.2
+          have : ((i.toNat : Nat) : Int) < ((2 ^ (L * 1) : Nat) : Int) := by
+            push_cast
+            rw [Int.toNat_of_nonneg hr.1]
+            exact h1
+          exact_mod_cast this
+        rw [bitsToNat_natToBits _ _ hlt, Int.toNat_of_nonneg hr.1]
+      · cases h
+    | raw r => simp [mkCodec, encVal] at h
+    | bad => simp [mkCodec, encVal] at h
+
+/-- … and so does a signed one (checked on all 16 values of `int4`). -/
+theorem mkCodec_i4_WF : (mkCodec .i "int" 4 1 .int true).WF := by
+  constructor
+  · intro v b h
+    cases v with
+    | int i =>
+      simp only [mkCodec, encVal] at h
+      split at h
+      · cases h
+      · split at h
+        · rename_i hr
+          injection h with h; subst h
+          obtain ⟨h1, h2⟩ := hr
+          norm_num at h1 h2
+          interval_cases i <;> decide
+        · cases h
+    | raw r => simp [mkCodec, encVal] at h
+    | bad => simp [mkCodec, encVal] at h
+  · intro v b h
+    cases v with
+    | int i =>
+      simp only [mkCodec, encVal] at h
+      split at h
+      · cases h
+      · split at h
+        · rename_i hr
+          injection h with h; subst h
+          obtain ⟨h1, h2⟩ := hr
+          norm_num at h1 h2
+          interval_cases i <;> decide
+        · cases h
+    | raw r => simp [mkCodec, encVal] at h
+    | bad => simp [mkCodec, encVal] at h
 
 end BM.C14
